@@ -528,8 +528,13 @@ func (c *Ctx) resolveRenames(vdir string) {
 		if claimed || len(fp.Feat) < 4 {
 			continue
 		}
-		var best *ssa.Function
-		bestS, second := -1.0, -1.0
+		type cand3 struct {
+			f      *ssa.Function
+			sc     float64
+			pieces map[*ssa.Function]bool
+			entry  bool
+		}
+		var cands3 []cand3
 		for _, f := range c.RepoFns {
 			if f.Parent() != nil || f.Pkg == nil || f.Pkg.Pkg.Path() != fp.Pkg || knownFn[c.fnName(f)] {
 				continue
@@ -540,11 +545,83 @@ func (c *Ctx) resolveRenames(vdir string) {
 			if _, taken := fnFullAlias[f]; taken {
 				continue
 			}
-			sc := jaccard(c.fnFeatures(f), fp.Feat)
-			if sc > bestS {
-				best, second, bestS = f, bestS, sc
-			} else if sc > second {
-				second = sc
+			// a function that was split keeps its features in the pieces: compare the candidate together with the new
+			// (unknown) functions of the package that it calls, and ignore calls among the pieces / to the old name
+			isNew := func(g *ssa.Function) bool {
+				return g != nil && g.Parent() == nil && g.Pkg != nil && g.Pkg.Pkg.Path() == fp.Pkg && !knownFn[c.fnName(g)]
+			}
+			pieces := []*ssa.Function{f}
+			seenP := map[*ssa.Function]bool{f: true}
+			for i := 0; i < len(pieces) && len(pieces) < 6; i++ {
+				for _, g := range fnAndAnons(pieces[i]) {
+					eachInstr(g, func(r instrRef) {
+						if cc := callCommon(r.I); cc != nil {
+							if h := cc.StaticCallee(); isNew(h) && !seenP[h] {
+								seenP[h] = true
+								pieces = append(pieces, h)
+							}
+						}
+					})
+				}
+			}
+			drop := map[string]bool{}
+			for _, x := range fp.Feat {
+				if strings.HasPrefix(x, "call:") && strings.Replace(x[5:], fp.Pkg, shortPkg(fp.Pkg), 1) == fp.Name {
+					drop[x] = true // the old function's recursive call
+				}
+			}
+			for _, pc := range pieces {
+				if pc.Object() != nil {
+					drop["call:"+normTypeNames(pc.Object().(*types.Func).FullName())] = true
+				}
+				drop["call:"+pc.String()] = true
+			}
+			set := map[string]bool{}
+			for _, pc := range pieces {
+				for _, x := range c.fnFeatures(pc) {
+					if !drop[x] {
+						set[x] = true
+					}
+				}
+			}
+			var feat, want []string
+			for x := range set {
+				feat = append(feat, x)
+			}
+			for _, x := range fp.Feat {
+				if !drop[x] {
+					want = append(want, x)
+				}
+			}
+			sc := jaccard(feat, want)
+			if os.Getenv("ARCA_DEBUG_ANCHORS") != "" && sc > 0.2 {
+				fmt.Fprintf(os.Stderr, "anchor3: %s ~ %s = %.2f (pieces %d)\n  have %v\n  want %v\n", fp.Name, f.String(), sc, len(pieces), feat, want)
+			}
+			// entry: called from outside the pieces (the piece the rest of the program uses)
+			entry := false
+			for _, site := range c.CG().callers[f] {
+				if p := site.Instr.Parent(); p != nil {
+					for p.Parent() != nil {
+						p = p.Parent()
+					}
+					if !seenP[p] {
+						entry = true
+					}
+				}
+			}
+			cands3 = append(cands3, cand3{f, sc, seenP, entry})
+		}
+		var best *ssa.Function
+		bestS, second := -1.0, -1.0
+		var bestPieces map[*ssa.Function]bool
+		for _, cd := range cands3 {
+			if cd.sc > bestS+1e-9 || (cd.sc > bestS-1e-9 && cd.entry && bestPieces != nil && bestPieces[cd.f]) {
+				best, bestS, bestPieces = cd.f, cd.sc, cd.pieces
+			}
+		}
+		for _, cd := range cands3 {
+			if cd.f != best && !bestPieces[cd.f] && cd.sc > second {
+				second = cd.sc
 			}
 		}
 		if best != nil && bestS >= 0.5 && bestS-second >= 0.2 {
